@@ -48,6 +48,25 @@ class P(Prop):
                 sg[i + 1][1:] = sg[i][1:]
             s = rng.choice([0.0, -0.0, 1.0, -1.0, 2.0, 1e-300, 1e300, 1e-17, rng.uniform(-3, 3), rng.f64_loguniform(-30, 30)])
             out.append(dict(op=op, ty=ty, segs=sg, s=C.bits(s), meta={"class": op + "/" + ty.split("<")[0]}))
+        for _ in range(8 if tier == "quick" else 100):
+            ty = rng.choice(["IntOfLog<Poly1>", "IntOfLog<Poly3>", "IntOfLogPoly4", "Poly2", "Log<Poly2>"])
+            k = rng.randint(1, 4)
+            es, sg = G.segs(rng, ty, k)
+            c = rng.choice([-1.0, 2.5, -3.0])
+            j = rng.randrange(k)
+            sg[j][1] = C.bits(-c * (1 + rng.choice([1, -1, 2, 3]) * 2.0 ** -52))       # the constant nearly cancels the shift
+            out.append(dict(op="pw_translate", ty=ty, segs=sg, s=C.bits(c), meta={"class": "pw_translate/cancel"}))
+        for _ in range(6 if tier == "quick" else 60):
+            ty = rng.choice(["Poly3", "Poly2"])
+            k = rng.randint(1, 3)
+            es, sg = G.segs(rng, ty, k)
+            sg[0][-1] = C.bits(2.0 ** -1000)
+            out.append(dict(op=rng.choice(["pw_mul", "pw_neg", "pw_mul_assign"]), ty=ty, segs=sg, s=C.bits(2.0 ** -60), meta={"class": "scale/subnormal_product"}))
+        for k in (17, 33, 64, 65, 100):
+            for op in ("pw_mul", "pw_mul_assign", "pw_neg", "pw_translate"):
+                ty = "Poly2"
+                es, sg = G.segs(rng, ty, k, rng.choice(["ints", "dups", "inc"]))
+                out.append(dict(op=op, ty=ty, segs=sg, s=C.bits(rng.choice([2.0, -0.5, 0.0, 3.25])), meta={"class": op + "/long"}))
         # Piecewise<PolyN>: pieces of different lengths, including the empty polynomial (the zero function)
         for _ in range(12 if tier == "quick" else 150):
             k = rng.randint(1, 8)
